@@ -317,6 +317,15 @@ def g(index, n, seq):
     start, stop, step = index.indices(n)
     return seq[slice(start, stop, step)]
 """
+SLICE_POSITIVE2 = """
+def h(indices, seq):
+    slices = [i if isinstance(i, slice) else slice(i, i + 1) for i in indices]
+    return [seq[s] for s in slices]
+def h2(i, seq, n):
+    if i < 0:
+        i += n
+    return seq[slice(i, i + 1)]
+"""
 SLICE_NEGATIVE = """
 def f(index, n, seq):
     cols = list(range(*index.indices(n)))
@@ -365,6 +374,11 @@ def hand_resolved_slices(tree):
                     if isinstance(inner, ast.Name) and inner.id in from_indices:
                         out.append(('slice-from-indices', c))
                         break
+            if c.func.id == 'slice' and len(c.args) == 2 and isinstance(c.args[1], ast.BinOp) and isinstance(c.args[1].op, ast.Add) and isinstance(c.args[1].right, ast.Constant) \
+                    and c.args[1].right.value == 1 and ast.unparse(c.args[1].left) == ast.unparse(c.args[0]) and not isinstance(c.args[0], ast.Constant):
+                names = {n.id for n in ast.walk(c.args[0]) if isinstance(n, ast.Name)}
+                if not (names & handled):
+                    out.append(('one-element-slice', c))
             if c.func.id == 'range':
                 for a in c.args:
                     for x in ast.walk(a):
@@ -390,7 +404,8 @@ def check_written_down(ctx, rep, rule='C02.N'):
     """(1) column selections are resolved by Python's own slice semantics, (2) the tree whose nodes are indexed is the tree that was written (no rotation, re-rooting or
     pruning between the parser and setup_indexes — internal nodes are numbered in the post-order of the newick, and every per-node vector the user supplies is laid out in
     that order), (3) which nodes carry a branch is a matter of topology (has a parent), not of which lengths the file happens to write"""
-    if len(hand_resolved_slices(ast.parse(SLICE_POSITIVE))) != 3 or hand_resolved_slices(ast.parse(SLICE_NEGATIVE)):
+    if len(hand_resolved_slices(ast.parse(SLICE_POSITIVE))) != 3 or hand_resolved_slices(ast.parse(SLICE_NEGATIVE)) or \
+            [k for k, _ in hand_resolved_slices(ast.parse(SLICE_POSITIVE2))] != ['one-element-slice']:
         raise AnalysisError(f'{rule} self-check: hand-resolved slices of the embedded examples are not recognised as expected')
     mods = [m for m in ctx.prog.modules.values() if m.name.startswith('torchtree.evolution') or m.name.startswith('torchtree.core.utils')]
     hits = [(m, k, c) for m in mods for k, c in hand_resolved_slices(m.tree)]
@@ -400,6 +415,8 @@ def check_written_down(ctx, rep, rule='C02.N'):
         m, k, c = hits[0]
         why = ("the (start, stop, step) triple of slice.indices() is meant for range(); put back into a slice its stop of −1 (negative step, open end) means 'the last "
                "position' and the selection is empty" if k == 'slice-from-indices' else
+               "slice(i, i + 1) selects nothing for i = −1 (the stop becomes 0): the last column, written the usual way, silently drops out of the selection"
+               if k == 'one-element-slice' else
                "a slice bound is handed to range() as written: a negative bound ('the last k columns') is not converted to a position, so range runs through the end of the "
                "alignment and over it once more")
         rep.bad(rule, key, where(m, c), {'sites': [f"{k}:{ast.unparse(x)[:60]}" for _, k, x in hits]}, f"`{ast.unparse(c)[:80]}`: {why} — the likelihood is that of other columns than "
@@ -424,6 +441,40 @@ def check_written_down(ctx, rep, rule='C02.N'):
                 f"configuration (branch lengths, heights, rates) is laid out in that order, so the values land on other branches")
     else:
         rep.ok(rule, key, where(tm, tm.functions['parse_tree']), {'method_calls_scanned': calls})
+    # (2') the parser keeps the root where it was written: every newick read asks dendropy for a rooted tree whatever the string says (`rooting='force-rooted'`); with the
+    # default a leading [&U] makes update_bipartitions collapse the basal bifurcation — a root with three children, of which the traversal keeps two
+    key = 'evolution::newick-read-as-a-rooted-tree'
+    reads, wrong = 0, []
+    for m in mods:
+        for fn in [f for f in ast.walk(m.tree) if isinstance(f, ast.FunctionDef)]:
+            dicts = {}
+            for st in ast.walk(fn):
+                if isinstance(st, ast.Assign) and len(st.targets) == 1 and isinstance(st.targets[0], ast.Name):
+                    v = st.value
+                    if isinstance(v, ast.Dict):
+                        dicts[st.targets[0].id] = {k.value: x for k, x in zip(v.keys, v.values) if isinstance(k, ast.Constant)}
+                    elif isinstance(v, ast.Call) and isinstance(v.func, ast.Name) and v.func.id == 'dict':
+                        dicts[st.targets[0].id] = {k.arg: k.value for k in v.keywords if k.arg}
+            for c in ast.walk(fn):
+                if isinstance(c, ast.Call) and isinstance(c.func, ast.Attribute) and c.func.attr in ('get', 'get_from_string', 'get_from_path', 'read') \
+                        and isinstance(c.func.value, ast.Name) and c.func.value.id in ('Tree', 'TreeList') and any(k.arg == 'schema' or k.arg is None for k in c.keywords):
+                    reads += 1
+                    kw = {k.arg: k.value for k in c.keywords if k.arg}
+                    for k in c.keywords:
+                        if k.arg is None and isinstance(k.value, ast.Name) and k.value.id in dicts:
+                            kw = {**dicts[k.value.id], **kw}
+                    r = kw.get('rooting')
+                    if not (isinstance(r, ast.Constant) and r.value == 'force-rooted'):
+                        wrong.append((m, c, ast.unparse(r) if r is not None else 'absent'))
+    if wrong:
+        m, c, r = wrong[0]
+        rep.bad(rule, key, where(m, c), {'rooting': [w[2] for w in wrong]},
+                f"`{ast.unparse(c)[:60]}` reads the newick with rooting={r}: a string that starts with [&U] comes back with its basal bifurcation collapsed, the root has three "
+                f"children and the traversal keeps the first two — the same tree written with or without the comment gives another likelihood")
+    elif reads < 2:
+        rep.undecided(rule, key, where(tm, tm.functions['parse_tree']), f"only {reads} newick reads found in the evolution modules (parse_tree's two expected)")
+    else:
+        rep.ok(rule, key, where(tm, tm.functions['parse_tree']), {'newick_reads': reads})
     # (3)
     key = 'evolution::branches-are-the-nodes-with-a-parent'
     hits, filters = [], 0
